@@ -40,7 +40,7 @@ Outcome(s, kn) ==
                 (IF "nfci" \in DEV_NilDerefs THEN [class |-> "500", leaks |-> DEV_CreateNoDefer] ELSE [class |-> "4xx", leaks |-> FALSE])
          ELSE IF s.pdu \in {"no_info", "no_slice", "no_snssai"} THEN
                 (IF "pdu" \in DEV_NilDerefs THEN [class |-> "500", leaks |-> DEV_CreateNoDefer] ELSE [class |-> "4xx", leaks |-> FALSE])
-         ELSE IF s.plmn \notin {"absent", "ok", "ok3"} THEN     \* every other variant is malformed (MCC not 3 digits or MNC not 2..3)
+         ELSE IF s.plmn \notin {"absent", "ok", "ok3", "home2", "home3"} THEN     \* every other variant is malformed (MCC not 3 digits or MNC not 2..3)
                 (IF "plmn" \in DEV_NilDerefs THEN [class |-> "500", leaks |-> DEV_CreateNoDefer] ELSE [class |-> "4xx", leaks |-> FALSE])
          ELSE [class |-> "2xx", leaks |-> FALSE]
     [] s.ep \in {"update", "release"} ->
@@ -58,7 +58,7 @@ Init == /\ shape \in Shapes
         /\ phase = "prior" /\ locked = FALSE /\ known = FALSE
         /\ out = [class |-> "", leaks |-> FALSE] /\ fol = ""
 Prior == /\ phase = "prior"
-         /\ known' = (shape.prior \in {"created", "debit", "nearfull"} /\ ImsiLike(shape))   \* "nearfull": a session whose record is almost full
+         /\ known' = (shape.prior \in {"created", "debit", "nearfull", "evcreated"} /\ ImsiLike(shape))   \* "nearfull": a session whose record is almost full
          /\ phase' = "probe" /\ UNCHANGED <<shape, locked, out, fol>>
 Probe == /\ phase = "probe"
          /\ out' = Outcome(shape, known)
